@@ -1408,9 +1408,10 @@ def _set_decorators() -> Dict[str, Callable[[_FN], _FN]]:
         return clear
 
     def update(fn):
-        def update(self, value):
-            for item in value:
-                self.add(item)
+        def update(self, *values):
+            for value in values:
+                for item in value:
+                    self.add(item)
 
         _tidy(update)
         return update
@@ -1427,9 +1428,11 @@ def _set_decorators() -> Dict[str, Callable[[_FN], _FN]]:
         return __ior__
 
     def difference_update(fn):
-        def difference_update(self, value):
-            for item in value:
-                self.discard(item)
+        def difference_update(self, *values):
+            for value in values:
+                # list(): value may be this collection itself
+                for item in list(value):
+                    self.discard(item)
 
         _tidy(difference_update)
         return difference_update
@@ -1438,7 +1441,8 @@ def _set_decorators() -> Dict[str, Callable[[_FN], _FN]]:
         def __isub__(self, value):
             if not _set_binops_check_strict(self, value):
                 return NotImplemented
-            for item in value:
+            # list(): value may be this collection itself
+            for item in list(value):
                 self.discard(item)
             return self
 
@@ -1446,8 +1450,8 @@ def _set_decorators() -> Dict[str, Callable[[_FN], _FN]]:
         return __isub__
 
     def intersection_update(fn):
-        def intersection_update(self, other):
-            want, have = self.intersection(other), set(self)
+        def intersection_update(self, *others):
+            want, have = self.intersection(*others), set(self)
             remove, add = have - want, want - have
 
             for item in remove:
